@@ -6,6 +6,7 @@
 -/
 import SigV4.Source.GeneratedFnsO
 import SigV4.Model.Auth
+import SigV4.Tie.Basic
 
 namespace SigV4.Tie
 
@@ -74,13 +75,6 @@ end SigV4.Tie
 namespace SigV4.Tie
 
 open SigV4
-
-/-- Equal outcomes, where two panics count as equal whatever their site labels. -/
-def SameUpToSite {α : Type} : Outcome α → Outcome α → Prop
-  | .ok x, .ok y => x = y
-  | .err j, .err k => j = k
-  | .panic _, .panic _ => True
-  | _, _ => False
 
 theorem rust_splitOnce_eq (c : UInt8) (s : Bytes) :
     Rust.splitOnce c s = match splitFirst c s with
